@@ -15,6 +15,7 @@ import (
 var (
 	errEmptyInAnyOf                        = errors.New("canno have empty anyOf array")
 	errTooManyTypesForAdditionalProperties = errors.New("cannot support multiple types for additional properties")
+	errNullSchema                          = errors.New("schema is null, expected an object or a boolean")
 )
 
 const float64Type = "float64"
@@ -234,6 +235,10 @@ func (g *schemaGenerator) extractRefNames(t *schemas.Type) (string, string, erro
 }
 
 func (g *schemaGenerator) generateDeclaredType(t *schemas.Type, scope nameScope) (codegen.Type, error) {
+	if t == nil {
+		return nil, fmt.Errorf("%w: %s", errNullSchema, scope.string())
+	}
+
 	if decl, ok := g.output.declsBySchema[t]; ok {
 		if t.Dereferenced {
 			if decl.Name != scope.string() {
@@ -470,6 +475,16 @@ func (g *schemaGenerator) generateUnmarshaler(decl codegen.TypeDecl, validators 
 }
 
 func (g *schemaGenerator) generateType(t *schemas.Type, scope nameScope) (codegen.Type, error) {
+	if t == nil {
+		return nil, fmt.Errorf("%w: %s", errNullSchema, scope.string())
+	}
+
+	for _, sub := range append(append([]*schemas.Type{}, t.AnyOf...), t.AllOf...) {
+		if sub == nil {
+			return nil, fmt.Errorf("%w: member of allOf/anyOf in %s", errNullSchema, scope.string())
+		}
+	}
+
 	if ext := t.GoJSONSchemaExtension; ext != nil {
 		for _, pkg := range ext.Imports {
 			g.output.file.Package.AddImport(pkg, "")
@@ -733,6 +748,10 @@ func (g *schemaGenerator) addStructField(
 	requiredNames map[string]bool,
 ) error {
 	prop := t.Properties[name]
+	if prop == nil {
+		return fmt.Errorf("could not generate type for field %q: %w", name, errNullSchema)
+	}
+
 	isRequired := requiredNames[name]
 
 	fieldName := g.caser.Identifierize(name)
@@ -902,6 +921,10 @@ func (g *schemaGenerator) defaultPropertyValue(prop *schemas.Type) any {
 }
 
 func (g *schemaGenerator) generateTypeInline(t *schemas.Type, scope nameScope) (codegen.Type, error) {
+	if t == nil {
+		return nil, fmt.Errorf("%w: %s", errNullSchema, scope.string())
+	}
+
 	if t.Enum == nil && t.Ref == "" {
 		if ext := t.GoJSONSchemaExtension; ext != nil {
 			for _, pkg := range ext.Imports {
@@ -1152,6 +1175,10 @@ func (g *schemaGenerator) resolveRefs(types []*schemas.Type) ([]*schemas.Type, e
 	resolvedTypes := make([]*schemas.Type, 0, len(types))
 
 	for _, typ := range types {
+		if typ == nil {
+			return nil, fmt.Errorf("%w: member of allOf/anyOf", errNullSchema)
+		}
+
 		resolvedType, err := g.resolveRef(typ)
 		if err != nil {
 			if !errors.Is(err, errCannotResolveRef) {
